@@ -771,6 +771,17 @@ func (x *Exec) schedule(me *Thread) {
 			continue
 		}
 		t := en[c]
+		if t.lazy {
+			// vacuity watch: how often a fault / closer thread was interposed by a deviation, how often it merely ran last
+			if x.counts == nil {
+				x.counts = map[string]int{}
+			}
+			if c != 0 {
+				x.counts["lazy-interposed:"+t.Name]++
+			} else {
+				x.counts["lazy-ran-last:"+t.Name]++
+			}
+		}
 		if Trace != nil {
 			Trace(fmt.Sprintf("step %d: %d enabled, choice %d -> t%d(%s) %s  clock=%dms", pos, n, c, t.ID, t.Name, t.what, (x.clock-epoch0)/1e6))
 		}
